@@ -928,14 +928,46 @@ Lemma switch_involutive r : switch (switch r) = r.
 Proof. destruct r; reflexivity. Qed.
 (* has the history switched an odd number of times? *)
 Definition odd_switches (ops : list op) : bool :=
-  fold_right (fun o b => match o with OSwitch => negb b | OSaveLoad => b end) false ops.
-Lemma run_ops_parity ops : forall r, run_ops ops r = if odd_switches ops then switch r else r.
+  fold_right (fun o b => match o with OSwitch => negb b | _ => b end) false ops.
+(* the list of transition states after a history: only the ts setter and appends touch it *)
+Definition tss_step (l : list species) (o : op) : list species :=
+  match o with
+  | OSetTS None => []
+  | OSetTS (Some t) => [t]
+  | OAppendTS t => l ++ [t]
+  | _ => l
+  end.
+Definition tss_after (ops : list op) (l : list species) : list species := fold_left tss_step ops l.
+
+Lemma run_ops_spec ops : forall r,
+  run_ops ops r = set_tss (if odd_switches ops then switch r else r) (tss_after ops (tss r)).
 Proof.
-  unfold run_ops. induction ops as [|o t IH]; intros r; [reflexivity|].
+  unfold run_ops, tss_after. induction ops as [|o t IH]; intros r; [destruct r; reflexivity|].
   cbn [fold_left odd_switches fold_right]. fold (odd_switches t). rewrite IH.
-  destruct o; cbn [run_op].
-  - destruct (odd_switches t); cbn [negb]; [apply switch_involutive|reflexivity].
+  destruct o as [| |[x|]|x]; cbn [run_op tss_step].
+  - destruct (odd_switches t); cbn [negb]; [rewrite switch_involutive|]; destruct r; reflexivity.
   - rewrite load_save. reflexivity.
+  - destruct (odd_switches t); destruct r; reflexivity.
+  - destruct (odd_switches t); destruct r; reflexivity.
+  - destruct (odd_switches t); destruct r; reflexivity.
+Qed.
+Lemma run_ops_parity ops : (forall o, In o ops -> o = OSwitch \/ o = OSaveLoad) ->
+  forall r, run_ops ops r = if odd_switches ops then switch r else r.
+Proof.
+  intros H r. rewrite run_ops_spec.
+  assert (E : forall l, tss_after ops l = l).
+  { unfold tss_after. induction ops as [|o t IH]; intros l; [reflexivity|]. cbn [fold_left].
+    destruct (H o (or_introl eq_refl)) as [->| ->]; cbn [tss_step]; apply IH; intros o' Ho'; apply H; right; exact Ho'. }
+  rewrite E. destruct (odd_switches ops); destruct r; reflexivity.
+Qed.
+Lemma delta_nonts_set_tss r l s k : parse s = (Some k, false) -> delta (set_tss r l) s = delta r s.
+Proof. intros H. rewrite !(delta_nonts _ _ _ H). reflexivity. Qed.
+
+Lemma lowest_ts_single t : lowest_ts [t] = LOk (Some t).
+Proof.
+  unfold lowest_ts. destruct lowest_unit; [|reflexivity]. unfold lowest_common. cbn [filter].
+  destruct (has_energy t) eqn:E; [|reflexivity]. cbn [map all_some].
+  destruct (sp_energy t); reflexivity.
 Qed.
 
 Lemma ckpt_first_run f r elapsed : Qcltb elapsed checkpoint_min_seconds = false ->
